@@ -23,7 +23,8 @@ RULE = ("corpus, then a boundary table enumerated in full (CON/NON registrations
         "re-registration, deregistration, plain GET on the token x the phase of the render task (idle, rendering, "
         "woken, notification queued); acknowledgement of the k-th copy; transport error and shutdown in every "
         "phase; 2-3 observers incl. shared response objects; unsuccessful/raising/last notifications; Reset of "
-        "a NON notification; duplicates and noise), then random scripts from env.rng. Non-trivial: at least one "
+        "a NON notification; duplicates and noise; a resource whose add_observation suspends after accepting x every "
+        "ending cause inside and after that window - oracle only), then random scripts from env.rng. Non-trivial: at least one "
         "notification beyond the first response was put on a pipe, or a registration ended.")
 TRUSTED = ["virtual-clock event loop and fake-socket UDP stack of the harness (vloop.py, netsim.py)",
            "instance-level wrappers the harness installs on Context.render_to_pipe / Site.render_to_pipe / "
@@ -96,6 +97,9 @@ def run(env, rep):
                 continue
             seen.add(key)
             rep.oracle_fail(case, verdict, key=key)
+        if script.get("slow_add"):
+            rep.count("oracle-only:add_observation-suspends")
+            continue
         if res["same_tick_inputs"]:
             rep.count("discarded:same-tick-inputs")
             continue
